@@ -40,6 +40,9 @@ func init() {
 			if st.A == "add" {
 				out = append(out, g)
 			}
+			if st.A == "clear" { // the user loses every group (deprovisioned)
+				out = nil
+			}
 			w.dirsim.Groups[st.User] = out
 			w.groupChanged[st.User] = time.Now()
 		}
@@ -310,8 +313,16 @@ func genAdminPlan(r *rand.Rand, tier string) *vfPlan {
 			add(st)
 		case x < 68:
 			add(vfStep{Op: "mintsession", Sess: pick(r, sess), User: pick(r, actors), N: int64(pick(r, levels))})
+		case x < 70:
+			// a group administrator is deprovisioned; after the cache lifetime they must be refused
+			gs := pick(r, sess)
+			add(vfStep{Op: "mintsession", Sess: gs, User: "gadmin", N: int64(pick(r, []int{AuthTypePassword | AuthTypeU2F, AuthTypeU2F, AuthTypePassword | AuthTypeTOTP}))})
+			add(vfStep{Op: "admop", Sess: gs, A: "list"})
+			add(vfStep{Op: "dir_group", User: "gadmin", A: pick(r, []string{"clear", "remove", "clear"})})
+			add(vfStep{Op: "advance", D: pick(r, []string{"5m2s", "6m", "4m", "20m"})})
+			add(vfStep{Op: "admop", Sess: gs, A: pick(r, []string{"list", "delete", "newotp", "add"}), Target: "carol"})
 		case x < 76:
-			add(vfStep{Op: "dir_group", User: pick(r, []string{"gadmin", "gadmin", "mallory"}), A: pick(r, []string{"add", "remove"})})
+			add(vfStep{Op: "dir_group", User: pick(r, []string{"gadmin", "gadmin", "mallory"}), A: pick(r, []string{"add", "remove", "clear"})})
 		case x < 82:
 			add(vfStep{Op: "dir_groups_server", A: pick(r, []string{"up", "down", "error", "up"})})
 		case x < 92:
